@@ -34,7 +34,7 @@ ScalesWide == {-1, 0, 1, 2, 5, 12}
 LongArgs == { Mk(1, One, 0), Mk(-1, <<5>>, 1), Mk(1, <<1, 4, 1, 3>>, 3), Mk(-1, <<9, 9>>, 1),
               Mk(1, <<7>>, 30), Mk(-1, <<5, 8, 5, 2, 0, 3, 2>>, 6), Mk(1, <<1, 1>>, 0) }
 Args == IF POOL = "long" THEN LongArgs
-        ELSE IF POOL = "one" THEN {Mk(1, One, 0)}
+        ELSE IF POOL = "two" THEN {Mk(1, One, 0), Mk(-1, <<5>>, 1)}
         ELSE {Mk(sg, NatOf(k), sc) : sg \in {-1, 1}, k \in 1..KMAX, sc \in (IF POOL = "wide" THEN ScalesWide ELSE ScalesSmall)}
 
 A == DAbs(x)
